@@ -45,9 +45,12 @@ class PureFunction(object):
         return self._cur_objparams
 
     def set_objparams(self, objparams: List):
-        # TODO: check if identical with current object parameters
-        identical = _check_identical_objs(objparams, self._cur_objparams)
-        self._restore_stack.append((self._cur_objparams, identical))
+        # what the object holds right now is what has to be put back: another
+        # wrapper of the same object may have substituted its tensors since this
+        # wrapper last looked, so the remembered list cannot be trusted
+        cur_objparams = self._uniq.get_unique_objs(self._get_all_obj_params_init())
+        identical = _check_identical_objs(objparams, cur_objparams)
+        self._restore_stack.append((cur_objparams, identical))
         if not identical:
             allobjparams = self._uniq.map_unique_objs(objparams)
             self._set_all_obj_params(allobjparams)
